@@ -108,6 +108,65 @@ def history(R, rng, tier):
                                      "input": inp, "observed": {"got": got[:6], "alone": ref[hist[j]][:6]}, "signature": sig})
 
 
+SEQ_PAIRS = [
+    # (section, settings A, settings B, program, test ids concerned, lines reported under A, lines reported under B)
+    ("markupsafe_xss", {"extend_markup_names": ["zz_ha.literal"]}, {"extend_markup_names": ["zz_hb.html"]},
+     "import zz_ha, zz_hb\nzz_ha.literal(zz_x)\nzz_hb.html(zz_x)\n", ["B704"], [2], [3]),
+    ("markupsafe_xss", {"extend_markup_names": ["zz_ha.literal"], "allowed_calls": ["zz_clean"]}, {"extend_markup_names": ["zz_ha.literal"], "allowed_calls": ["zz_other"]},
+     "import zz_ha\nzz_ha.literal(zz_clean(zz_x))\nzz_ha.literal(zz_other(zz_x))\n", ["B704"], [3], [2]),
+    ("hardcoded_tmp_directory", {"tmp_dirs": ["/var/data"]}, {"tmp_dirs": ["/scratch"]},
+     "zz_a = '/var/data/x'\nzz_b = '/scratch/y'\n", ["B108"], [1], [2]),
+    ("shell_injection", {"subprocess": ["zz_spawn"], "shell": [], "no_shell": []}, {"subprocess": ["zz_launch"], "shell": [], "no_shell": []},
+     "zz_spawn(zz_c, shell=True)\nzz_launch(zz_c, shell=True)\n", ["B602"], [1], [2]),
+    ("ssl_with_bad_version", {"bad_protocol_versions": ["PROTOCOL_ZZ"]}, {"bad_protocol_versions": ["PROTOCOL_YY"]},
+     "import ssl\nssl.wrap_socket(ssl_version=ssl.PROTOCOL_ZZ)\nssl.wrap_socket(ssl_version=ssl.PROTOCOL_YY)\n", ["B502"], [2], [3]),
+    ("try_except_pass", {"check_typed_exception": True}, {"check_typed_exception": False},
+     "try:\n    zz_f()\nexcept ValueError:\n    pass\n", ["B110"], [3], []),
+    ("weak_cryptographic_key", {"weak_key_size_dsa_high": 100, "weak_key_size_dsa_medium": 200, "weak_key_size_rsa_high": 100, "weak_key_size_rsa_medium": 200,
+                                "weak_key_size_ec_high": 100, "weak_key_size_ec_medium": 200},
+     {"weak_key_size_dsa_high": 5000, "weak_key_size_dsa_medium": 6000, "weak_key_size_rsa_high": 5000, "weak_key_size_rsa_medium": 6000,
+      "weak_key_size_ec_high": 500, "weak_key_size_ec_medium": 600},
+     "from Crypto.PublicKey import RSA\nRSA.generate(4096)\n", ["B505"], [], [2]),
+]
+
+
+def sequences(R, rng, tier):
+    """Scanners used one after the other in one process, each constructed just before it runs, with *different* settings for
+    the same plugin: every scan reports what its own settings say (judged by the settings, not by another run)."""
+    import yaml
+    d = os.path.join(impl.scratch(), "c08q")
+    os.makedirs(d, exist_ok=True)
+    for section, a, b, src, ids, la, lb in SEQ_PAIRS:
+        f = os.path.join(d, "seq.py")
+        open(f, "w").write(src)
+        for order in ("ABAB", "BABA", "A-B-", "-A-B"):
+            got_seq = []
+            for step, which in enumerate(order):
+                cfg = {"A": {section: a}, "B": {section: b}, "-": None}[which]
+                cf = None
+                if cfg is not None:
+                    cf = os.path.join(d, "seq%d.yaml" % step)
+                    yaml.safe_dump(cfg, open(cf, "w"), sort_keys=False)
+                m = impl.make_manager(config_file=cf)
+                m.files_list = [f]
+                m.run_tests()
+                got = sorted(i.lineno for i in m.results if i.test_id in ids)
+                if rng.random() < 0.5:
+                    try:
+                        render(m)
+                    except Exception:  # noqa: BLE001
+                        pass
+                if which != "-":
+                    want = la if which == "A" else lb
+                    R.case(("sequence", section, order, step), nontrivial=True, sample={"section": section, "order": order, "step": step, "lines": got})
+                    R.count("sequence")
+                    if got != sorted(want):
+                        R.violations.append({"what": "scanner %d of the sequence %s (settings %s of %s) reports %s on lines %s; its own settings say lines %s"
+                                                     % (step + 1, order, which, section, ids, got, sorted(want)),
+                                             "input": {"program": src, "settings_A": a, "settings_B": b, "order": order, "step": step},
+                                             "observed": got, "signature": None})
+
+
 def rescans(R, rng, tier):
     """One path scanned, edited and scanned again by the same process: everything reported the second time (excerpts
     included) is what a fresh process reports for the edited file."""
@@ -262,6 +321,7 @@ def run(R, replay=None):
               "scanned together vs alone; (3) whole-directory runs in subprocesses under different hash seeds, machine-readable reports "
               "compared byte for byte apart from the timestamp; non-trivial = histories with at least two different scanners, all others")
     history(R, rng, R.tier)
+    sequences(R, rng, R.tier)
     rescans(R, rng, R.tier)
     fresh_vs_history(R, rng, R.tier)
     file_sets(R, rng, R.tier)
